@@ -44,6 +44,9 @@ struct RunState {
     TestRegistry* reg; Vec<TestPlugin*> pluginObjs; Vec<char> pluginInstalled;
 };
 static RunState RS;
+// platform realloc seam: the next call fails when a realloc op asks for it (b = 1)
+static void* (*g_realRealloc)(void*, size_t) = 0; static bool g_failNextRealloc = false;
+static void* simRealloc(void* p, size_t n) { if (g_failNextRealloc) { g_failNextRealloc = false; fired("platform_realloc_null"); return 0; } return g_realRealloc(p, n); }
 
 static int g_init[N_TARGETS];
 static int g_val[N_VALUES];
@@ -207,6 +210,14 @@ static void execOp(const Group& T, const Op& o) {
     case K_REALLOC: {
         Slot& s = RS.slots[o.a % N_SLOTS];
         if (!s.p || s.family != 2) break;
+        if (o.b == 1) {                      // the platform's realloc answers NULL: the block stays what and whose it was
+            if (!g_realRealloc) { g_realRealloc = PlatformSpecificRealloc; PlatformSpecificRealloc = simRealloc; }
+            g_failNextRealloc = true;
+            void* q = cpputest_realloc_location(s.p, (size_t)o.c, file, line);
+            g_failNextRealloc = false;
+            if (q) { s.p = q; s.size = (size_t)o.c; fillPattern(q, s.size, (int)(o.a % N_SLOTS)); }
+            break;
+        }
         void* p = cpputest_realloc_location(s.p, (size_t)o.c, file, line);
         s.p = p; s.size = (size_t)o.c; fillPattern(p, s.size, (int)(o.a % N_SLOTS));
         break;
